@@ -86,7 +86,7 @@ PROPS["C11"] = {
 }
 
 PROPS["C05"] = {
-    "modules": ["SamlVerif.Props.C05", "SamlVerif.Props.TransIdP", "SamlVerif.Props.TransIdpInit", "SamlVerif.Props.PureSaml"],
+    "modules": ["SamlVerif.Props.C05", "SamlVerif.Props.TransServe", "SamlVerif.Props.TransIdP", "SamlVerif.Props.TransIdpInit", "SamlVerif.Props.PureSaml"],
     "trusted_base": ["modelled, not verified: base64/inflate decoding and encoding/xml unmarshalling of the AuthnRequest (the model starts from the unmarshalled "
                      "fields; the harness sends real GET-deflate and POST encodings through NewIdpAuthnRequest + Validate)"],
     "assumptions": ["freshness is read one-sidedly (now <= IssueInstant + MaxIssueDelay), as the anchored code words it"],
@@ -157,7 +157,7 @@ PROPS["C17"] = {
 }
 
 PROPS["C19"] = {
-    "modules": ["SamlVerif.Props.C19", "SamlVerif.Props.TransSession", "SamlVerif.Props.PureSamlidp"],
+    "modules": ["SamlVerif.Props.C19", "SamlVerif.Props.TransServe", "SamlVerif.Props.TransSession", "SamlVerif.Props.PureSamlidp"],
     "trusted_base": ["modelled, not verified: bcrypt (symbolic: compare(H p, p') iff p = p'), JSON encoding of stored values, http.ServeMux routing, the MemoryStore (covered by C20)",
                      "'exactly one HTTP reply' is by construction in the model and measured on the real server by a counting ResponseWriter (testing)"],
     "assumptions": ["stored services have pairwise distinct entity IDs (with duplicates the registry a restart builds depends on Go map iteration order)",
@@ -186,7 +186,7 @@ IDP_TB = ["modelled, not verified: XML serialisation of the struct (schema.go El
           "the extractor's reading of the Assertion/Response composite literals (Facts.idpFieldSources): a field whose source expression changes breaks an obligation"]
 
 PROPS["C06"] = {
-    "modules": ["SamlVerif.Props.C06", "SamlVerif.Props.PureSaml"],
+    "modules": ["SamlVerif.Props.C06", "SamlVerif.Props.TransServe", "SamlVerif.Props.PureSaml"],
     "trusted_base": IDP_TB,
     "assumptions": ["instants are integers (ms); the session provider returns the same session whatever the request (the provider is the deployment's code)",
                     "request validation and endpoint selection are the C05 model (validate / selectACS)"],
@@ -267,12 +267,13 @@ TRANS_TB = ("the Go->Lean translator (extract/trans.go: go/ast + go/types over a
             "dereference = panic, receivers non-nil, time as integers, url.URL.String() opaque, untranslated callees as arbitrary functions in Env; arguments of fmt.Errorf are not evaluated)")
 for pid, fns in {"C01": "parseResponse / parseAssertion / parseEncryptedAssertion / parseArtifactResponse / the trust configuration of validateSignature",
                  "C02": "validateAssertion / parseResponse", "C03": "validateAssertion / validateAudienceRestriction / parseResponse",
-                 "C04": "validateRequestID / validateAssertion / parseResponse / parseArtifactResponse / samlsp Middleware.ServeACS (the outstanding request IDs)", "C05": "IdpAuthnRequest.Validate (from the Destination check on) / getACSEndpoint / the endpoint selection of ServeIDPInitiated",
+                 "C04": "validateRequestID / validateAssertion / parseResponse / parseArtifactResponse / samlsp Middleware.ServeACS (the outstanding request IDs)", "C05": "IdpAuthnRequest.Validate (from the Destination check on) / getACSEndpoint / the endpoint selection of ServeIDPInitiated / the gate of ServeSSO",
                  "C18": "validateLogoutResponse / the trust configuration of validateSignature",
                  "C08": "IdpAuthnRequest.getSPEncryptionCert (the selection of the certificate string, up to its decoding)",
                  "C10": "xmlenc appendPadding / stripPadding", "C11": "xmlenc stripPadding",
                  "C16": "samlsp CookieSessionProvider.GetSession",
-                 "C19": "samlidp Server.GetSession (the branch for requests without credentials)",
+                 "C06": "IdentityProvider.ServeSSO (the gate before the assertion is made)",
+                 "C19": "samlidp Server.GetSession (the credential guards and the branch for requests without credentials) / IdentityProvider.ServeSSO (the gate)",
                  "C17": "samlsp Middleware.ServeACS / CreateSessionFromAssertion (as effect traces) / CookieRequestTracker.GetTrackedRequest"}.items():
     PROPS[pid]["technique"] = TRANS_TECH.format(fns=fns)
     PROPS[pid]["trusted_base"] = list(PROPS[pid].get("trusted_base", [])) + [TRANS_TB]
